@@ -1,8 +1,8 @@
 (* Proofs/DateOrder: for well-formed "2006-01-02" dates the byte order of the
    strings is the order of the days (used by the uploader's future-date test,
-   which compares strings).  Uses DateInverse and DateKey. *)
+   which compares strings).  Uses DateMono (arithmetic, no sweep). *)
 From Coq Require Import List ZArith NArith Bool Lia.
-From Tele Require Import Lib.Bytes Lib.Calendar Proofs.CalendarFacts Proofs.DateInverse Proofs.DateKey.
+From Tele Require Import Lib.Bytes Lib.Calendar Proofs.CalendarFacts Proofs.DateMono.
 Import ListNotations.
 Open Scope Z_scope.
 
